@@ -99,6 +99,16 @@ def cases(tier, seed):
                 # other legal spellings of the path: ./name, a parent step (sub/../name, sub/dir.1/../dir.1/name), an absolute path
                 for style in ("dot", "dotdot", "dotdot.deep", "abs"):
                     yield {"k": "split", "base": name, "lines": lines, "plan": plan, "subdir": style}
+    # included files that contribute no statement at all (empty, or only comments and blank lines), alone, directly before another
+    # INCLUDE, directly after one, and nested
+    for name, lines in BIG.items():
+        n = len(lines)
+        for p in range(0, n + 1):
+            yield {"k": "split", "base": name, "lines": lines, "plan": [(p, p, [])], "banner": p % 2 == 0}
+            for q in range(p + 1, min(n, p + 3) + 1):
+                yield {"k": "split", "base": name, "lines": lines, "plan": [(p, p, []), (p, q, [])], "banner": q % 2 == 0}
+                yield {"k": "split", "base": name, "lines": lines, "plan": [(p, q, []), (q, q, [])], "banner": q % 2 == 1}
+                yield {"k": "split", "base": name, "lines": lines, "plan": [(p, q, [(p, p, []), (p, q, [])])], "banner": True}
     # the same (label-free) file included more than once: twice from the main file, and once directly + once through another file
     for name, lines in list(BIG.items()) + [("frag", ["START NOP", " LDA #1", " STA ,X+", "MID LEAX END1,PCR", " BNE START", " LDB #2", "END1 RTS", " JMP MID"])]:
         n = len(lines)
@@ -183,6 +193,8 @@ def check_case(case):
             cell = "twice|{}|{}".format(case["base"], "nested" if case["nested"] else "flat")
             ref = common.assemble_confirm(flat)
             for fn, content in files.items():
+                if not content and case.get("banner"):
+                    content = ["; a file of comments only", "", "        ; nothing else"]
                 open(fn, "w").write("".join(ln + "\n" for ln in content))
             got = common.assemble_confirm(main)
             if ref["kind"] != got["kind"]:
@@ -205,6 +217,8 @@ def check_case(case):
                 files = {os.path.normpath(fn): content for fn, content in files.items()}
             ref = common.assemble_confirm(lines)
             for fn, content in files.items():
+                if not content and case.get("banner"):
+                    content = ["; a file of comments only", "", "        ; nothing else"]
                 open(fn, "w").write("".join(ln + "\n" for ln in content))
             got = common.assemble_confirm(main)
             if ref["kind"] != got["kind"]:
@@ -249,7 +263,7 @@ def describe(tier):
                     ") sequence of C02's core alphabet with every label binding",
         "bound": "every single contiguous slice moved to an included file; every pair of disjoint slices; every slice nested in a slice (and a third "
                  "level for programs of <= 4 lines" + (" / <= 11 lines" if tier == "thorough" else "") + "); three consecutive includes; a 3-level wrap of the whole "
-                 "program; include depth 3; included files reached through sub/dir.1/name, ./name, sub/../name, sub/dir.1/../dir.1/name and an absolute path; 6 error graphs (self, 2- and 3-cycles, missing, nested missing, directory)",
+                 "program; include depth 3; included files without any statement (empty / comments only) alone, next to another INCLUDE and nested; included files reached through sub/dir.1/name, ./name, sub/../name, sub/dir.1/../dir.1/name and an absolute path; 6 error graphs (self, 2- and 3-cycles, missing, nested missing, directory)",
         "oracle": "Program.process on the including file (cwd = private directory) gives the same image, listing addresses, symbol table and origin "
                   "as the spliced single file (same diagnostic if the base is rejected); a sample of the larger programs also through assembler.py "
                   "--print --symbols --to_bin; missing file / cycle => diagnostic, exit != 0, no output file",
